@@ -55,6 +55,22 @@ def _dot(row, z, n):
     return s
 
 
+def _as_given(x, case, ctx, salt=0):
+    """the same point as ndarray (mostly), list, tuple, or - for a single variable - a plain float"""
+    k = (case['seed'] // 7 + salt) % 10
+    if k == 0:
+        ctx.count('x_given_as:list')
+        return np.asarray(x).tolist()
+    if k == 1:
+        ctx.count('x_given_as:tuple')
+        v = np.asarray(x).tolist()
+        return tuple(tuple(r) if isinstance(r, list) else r for r in v)
+    if k == 2 and np.size(x) == 1 and np.ndim(x) == 1:
+        ctx.count('x_given_as:scalar')
+        return float(np.asarray(x)[0])
+    return np.array(x, copy=True)
+
+
 def run_case(case, ctx):
     import numdifftools as nd
     rng = np.random.default_rng(case['seed'])
@@ -94,7 +110,7 @@ def run_case(case, ctx):
             exact = ca[:, None] * A * eb[:, None] + sa[:, None] * eb[:, None] * B
         try:
             with np.errstate(all='ignore'):
-                J, info = nd.Jacobian(f, **kw)([int(v) for v in x] if int_x else x.copy())
+                J, info = nd.Jacobian(f, **kw)([int(v) for v in x] if int_x else _as_given(x, case, ctx))
         except Exception as exc:
             ctx.reject('jacobian_raised', observed='%s: %s' % (type(exc).__name__, str(exc)[:150]),
                        kind=kind, m=m, n=n, method=method, length_one_output=bool(m == 1))
@@ -153,7 +169,7 @@ def run_case(case, ctx):
         exact = T + ca[:, None, None] * A[:, :, None] * v[None, None, :]
         try:
             with np.errstate(all='ignore'):
-                J, info = nd.Jacobian(f, **kw)(x.copy())
+                J, info = nd.Jacobian(f, **kw)(_as_given(x, case, ctx))
         except Exception as exc:
             ctx.reject('jacobian_raised', observed='%s: %s' % (type(exc).__name__, str(exc)[:150]),
                        kind=kind, m=m, n=n, k=k, method=method, length_one_output=False)
@@ -203,7 +219,7 @@ def run_case(case, ctx):
                 xin = x.reshape(2, n // 2)
             try:
                 with np.errstate(all='ignore'):
-                    g, ginfo = nd.Gradient(f, **kw)(xin)
+                    g, ginfo = nd.Gradient(f, **kw)(_as_given(xin, case, ctx))
                     Jr, jinfo = nd.Jacobian(f, **kw)(x.copy())
             except Exception as exc:
                 ctx.reject('gradient_raised', observed='%s: %s' % (type(exc).__name__, str(exc)[:150]), method=method, n=n)
@@ -251,7 +267,7 @@ def run_case(case, ctx):
                 kw2['step'] = case['step']['value']
             try:
                 with np.errstate(all='ignore'):
-                    dd, dinfo = nd.directionaldiff(fm, xin, vin, **kw2)
+                    dd, dinfo = nd.directionaldiff(fm, _as_given(xin, case, ctx), _as_given(vin, case, ctx, salt=3), **kw2)
                     g, ginfo = nd.Gradient(f, method=method, order=order, full_output=True)(x.copy())
             except Exception as exc:
                 ctx.reject('directionaldiff_raised', observed='%s: %s' % (type(exc).__name__, str(exc)[:150]),
